@@ -8,15 +8,29 @@ import GocoinV.Spec.MempoolTemplate
 import GocoinV.Proofs.C12
 import GocoinV.Proofs.C12Inv
 import GocoinV.Proofs.C12Rbf
+import GocoinV.Proofs.C12Sort
 namespace GocoinV.Props.C12
 open GocoinV.Mempool
 
 /-- The model's GetSortedMempoolSlow (what buildSortedList installs as the BestT2S…WorstT2S list whenever the
     list is dirty, and what GetSortedMempool returns then) places every in-pool parent (MemInputs flag) before
     its child — for every pool state, however it was reached. -/
+-- OPEN: the composition `pool_inv ∧ sorted_parents_first ∧ sorted_complete ∧ rbf_listing_valid ⇒ hypotheses of
+-- template_valid for the block built from sortedRBF` is not stated as a theorem: `hsp`/`hpf` of template_valid
+-- (and the hypothesis `hpar` of sorted_complete: flagged parents are pooled) follow from the unproved "spendable"
+-- conjunct of pool_inv.
 theorem sorted_parents_first (K : Keys) (s : State) : ParentsFirst K (sortedSlowP K s) := by
   unfold sortedSlowP
   exact foldl_slowStep_PF K _ _ _ (by simp [ParentsFirst, PFfrom])
+
+/-- Completeness of the model's GetSortedMempoolSlow: the listing contains every pooled record exactly once —
+    for every pool state whose key list has no duplicates and in which every flagged (MemInputs) parent of a
+    pooled record is itself pooled, the spending relation being acyclic (`rank` decreases towards parents; a txid
+    is a hash over the txids it spends). The fuel of the model's recursion (pool size + 1) is shown sufficient. -/
+theorem sorted_complete (K : Keys) (s : State) (rank : Nat → Nat) (hn : (s.pool.map Prod.fst).Nodup)
+    (hpar : ∀ b t, (b, t) ∈ s.pool → ∀ k ∈ memParents K t, (∃ t', (k, t') ∈ s.pool) ∧ rank k < rank b) :
+    (sortedSlow K s).Nodup ∧ ∀ b, b ∈ sortedSlow K s ↔ b ∈ s.pool.map Prod.fst :=
+  sortedSlow_complete K s rank hn hpar
 
 /-- A block body assembled from a listing of pooled records is accepted by the input-availability rules of
     commitTxs (`BlockOK`: every input unspent-confirmed or created earlier in the block, consumed once),
@@ -184,17 +198,18 @@ example : evict K0 s2 [7] = none := by decide
 /-- a universe for which the hypotheses of `pool_inv_struct` hold, and a history over it that fills the pool -/
 def K2 : Keys := { bidx := id, uidx := fun a _ => a }
 def W2 : Tx → Prop := fun t => t = txA ∨ t = txB
-theorem univ2 : Univ K2 W2 id := by
-  refine ⟨?_, ?_, ?_, ?_, ?_⟩
-  · intro a b _ _ h; exact h
-  · intro c t _ _ i _ v h; exact h
-  · intro a b ha hb h
-    rcases ha with rfl | rfl <;> rcases hb with rfl | rfl <;> first | rfl | (simp [txA, txB] at h)
-  · intro a ha; rcases ha with rfl | rfl <;> simp [txA, txB]
-  · intro a ha i hi
-    rcases ha with rfl | rfl <;> simp [txA, txB] at hi <;> subst hi <;> decide
 def ops2 : List Op := [.tip 5, .submitNet txB false 0, .submitNet txA false 0, .resort, .reload, .expire [8]]
-example : ∀ op ∈ ops2, ∀ t ∈ op.txs, W2 t := by
+example : InvS K2 (run K2 {} ops2) := by
+  have univ2 : Univ K2 W2 id := by
+    refine ⟨?_, ?_, ?_, ?_, ?_⟩
+    · intro a b _ _ h; exact h
+    · intro c t _ _ i _ v h; exact h
+    · intro a b ha hb h
+      rcases ha with rfl | rfl <;> rcases hb with rfl | rfl <;> first | rfl | (simp [txA, txB] at h)
+    · intro a ha; rcases ha with rfl | rfl <;> simp [txA, txB]
+    · intro a ha i hi
+      rcases ha with rfl | rfl <;> simp [txA, txB] at hi <;> subst hi <;> decide
+  apply pool_inv_struct K2 W2 id univ2 ops2
   intro op ho t ht
   simp only [ops2, List.mem_cons, List.not_mem_nil, or_false] at ho
   rcases ho with rfl | rfl | rfl | rfl | rfl | rfl <;> simp [Op.txs] at ht <;> simp [W2, ht]
@@ -204,8 +219,17 @@ def txE : Tx := { id := 9, ins := [⟨2, 0, 0⟩], outs := [1], nws := 100, size
 def txF : Tx := { id := 11, ins := [⟨8, 0, 0⟩, ⟨9, 0, 0⟩], outs := [1], nws := 100, size := 100, scriptOk := true }
 def s4 : State :=
   (submitNet K0 0 (submitNet K0 0 { s2 with utxo := ((2, 0), ⟨10, 1, false⟩) :: s2.utxo } txE false).2 txF false).2
-def pk9 : Pkg := { txs := [9, 7, 8, 11], fee := 67, weight := 1600 }
-def pk7 : Pkg := { txs := [7, 8, 9, 11], fee := 67, weight := 1600 }
+def pk9 : Pkg := { txs := [9, 7, 8, 11], fee := 69, weight := 1600 }
+def pk7 : Pkg := { txs := [7, 8, 9, 11], fee := 69, weight := 1600 }
+example : (sortedSlow K0 s4).Nodup ∧ ∀ b, b ∈ sortedSlow K0 s4 ↔ b ∈ s4.pool.map Prod.fst := by
+  have H : ∀ p ∈ s4.pool, ∀ k ∈ memParents K0 p.2, (s4.pool.any fun q => q.1 = k) = true ∧ k < p.1 := by decide
+  apply sorted_complete K0 s4 id (by decide)
+  intro b t h k hk
+  obtain ⟨h1, h2⟩ := H (b, t) h k hk
+  obtain ⟨q, hq, e⟩ := List.any_eq_true.mp h1
+  have hk' : q.1 = k := by simpa using e
+  exact ⟨⟨q.2, hk' ▸ hq⟩, h2⟩
+example : sortedSlow K0 s4 = [7, 8, 9, 11] := by decide
 example : getSorted K0 s4 = [7, 8, 11, 9] ∨ getSorted K0 s4 = [7, 8, 9, 11] := by decide
 example : pkgOK K0 s4 pk9 = true ∧ pkgOK K0 s4 pk7 = true := by decide
 example : sortedRBF K0 s4 [pk7, pk9] = [7, 8, 9, 11] := by decide
